@@ -154,6 +154,8 @@ def call_native_method(I, f, args, kwargs):
     slf = f.__self__
     if isinstance(slf, tuple(ENGINE_TYPES)) or getattr(fn, "psx_engine", False):
         return f(*args, **kwargs)
+    if isinstance(slf, tuple) and hasattr(type(slf), "_fields") and f.__name__ in ("_replace", "_asdict"):
+        return f(*args, **kwargs)         # namedtuple helpers only move values around
     if all_clean(list(args) + [slf], kwargs):
         return I.native(f, *args, **kwargs)
     I.unsupported("no model for %s with symbolic data" % getattr(f, "__qualname__", f))
@@ -182,6 +184,15 @@ def call_other(I, f, args, kwargs):
                 break
         if isinstance(slf, tuple(ENGINE_TYPES)):
             return f(*args, **kwargs)
+        if isinstance(slf, list) and f.__name__ in ("append", "extend", "copy", "reverse", "clear", "pop", "insert", "__len__", "__iter__"):
+            # value-agnostic container operations (positions must be concrete)
+            if f.__name__ in ("pop", "insert") and args and isinstance(args[0], SYM):
+                I.unsupported("list.%s at a symbolic position" % f.__name__)
+            if f.__name__ == "extend":
+                return I.native(f, list(iterate(I, args[0])))
+            return I.native(f, *args, **kwargs)
+        if isinstance(slf, dict) and f.__name__ in ("items", "keys", "values", "copy", "clear", "popitem", "__len__", "__iter__"):
+            return I.native(f, *args, **kwargs)
         if all_clean(args, kwargs) and (not isinstance(slf, (list, dict, set, tuple)) or True):
             # the receiver may hold symbolic leaves; container methods with clean arguments never inspect them,
             # except the comparison-based ones, which have models above
@@ -235,6 +246,7 @@ def construct(I, cls, args, kwargs):
                 obj = I.native(cls.__new__, cls, *args, **kwargs)
         else:
             obj = I.native(cls.__new__, cls, *args, **kwargs)
+        I.serial(obj)
         I.call(types.MethodType(init, obj), args, kwargs)
         return obj
     if getattr(cls, "_fields", None) is not None and issubclass(cls, tuple):
@@ -407,12 +419,12 @@ def set_order(I, s):
         try:
             return sorted(items)          # a fixed, hash-seed independent order
         except TypeError:
-            return sorted(items, key=lambda x: getattr(x, "_psx_serial", id(x)))
+            return sorted(items, key=I.serial)
     # every iteration order is possible: n! pure choices
     try:
         items = sorted(items)
     except TypeError:
-        items = sorted(items, key=lambda x: getattr(x, "_psx_serial", id(x)))
+        items = sorted(items, key=I.serial)
     out = []
     rest = items
     while len(rest) > 1:
@@ -1540,7 +1552,9 @@ def _dict_keyed_factory(name):
     def m(I, d, args, kwargs):
         if args and isinstance(args[0], SYM):
             args = [concretize(I, args[0])] + list(args[1:])
-        return I.native(getattr(d, name), *args, **kwargs)
+        if args and contains_sym(args[0]):
+            I.unsupported("dict key containing symbolic data")
+        return I.native(getattr(d, name), *args, **kwargs)     # values are stored, never inspected
     return m
 
 
